@@ -194,6 +194,8 @@ def play_hist(h, doms, rngs):
             s.nice(int(x))
         elif a == "Y":
             scales.append(s.copy())
+        elif a == "F":
+            s.domain(scales[int(x) - 1].domain())        # the very list object the other scale reports
         rec["ev"].append({"a": a, "i": i, "x": x, "obs": [observe(t) for t in scales]})
     return rec
 
@@ -205,13 +207,17 @@ def random_hist(rng):
     n = 1
     h = []
     for _ in range(rng.randint(3, 15)):
-        a = rng.choice(["D", "D", "R", "K", "N", "N", "Y"])
+        a = rng.choice(["D", "D", "R", "K", "N", "N", "Y", "F"])
         i = rng.randint(1, n)
         if a == "Y":
             if n >= 4:
                 continue
             n += 1
             x = ""
+        elif a == "F":
+            if n < 2:
+                continue
+            x = str(rng.choice([t for t in range(1, n + 1) if t != i]))
         elif a == "D":
             x = rng.choice(["dA", "dB", "dC"])
         elif a == "R":
